@@ -195,6 +195,7 @@ func (p countingPublisher) Close() error { return nil }
 
 func TestRaceC14(t *testing.T) {
 	defer report(t)
+	raceC14Window(t)
 	hashers := map[string]func() middleware.MessageHasher{
 		"default": func() middleware.MessageHasher { return nil },
 		"adler32": func() middleware.MessageHasher { return middleware.NewMessageHasherAdler32(1 << 16) },
@@ -248,6 +249,32 @@ func TestRaceC14(t *testing.T) {
 				}
 			}
 		}
+	}
+}
+
+// arrivals spread over several clean-up ticks of a very short window (only the race detector judges this one)
+func raceC14Window(t *testing.T) {
+	for round := 0; round < 10; round++ {
+		atomic.AddInt64(&iterations, 1)
+		kr, err := middleware.NewMapExpiringKeyRepository(2 * time.Millisecond)
+		if err != nil {
+			t.Fatal(err)
+		}
+		d := &middleware.Deduplicator{Repository: kr, Timeout: time.Second}
+		h := d.Middleware(func(m *message.Message) ([]*message.Message, error) { return nil, nil })
+		var wg sync.WaitGroup
+		for g := 0; g < 4; g++ {
+			g := g
+			wg.Add(1)
+			go func() {
+				defer wg.Done()
+				for i := 0; i < 40; i++ {
+					_, _ = h(message.NewMessage("u", []byte(fmt.Sprintf("payload-%d", (g+i)%5))))
+					time.Sleep(100 * time.Microsecond)
+				}
+			}()
+		}
+		waitOrGiveUp(t, &wg, "arrivals across clean-up ticks")
 	}
 }
 
